@@ -154,10 +154,15 @@ instance (L R : List Person) : Decidable (IdsOK L R) := by unfold IdsOK; exact i
 instance (L R : List Person) (js : List Job) : Decidable (JobsOK L R js) := by
   unfold JobsOK; exact inferInstance
 
-/-- no two uncertain results have the same score -/
-def NoScoreTies (js : List Job) : Prop := ((js.filter (!·.certain)).map (·.score)).Nodup
+/-- the uncertain results that the winner loop can reach: at or above the threshold -/
+def eligible (minW : Rat) (j : Job) : Bool := !j.certain && !decide (j.score < minW)
 
-instance (js : List Job) : Decidable (NoScoreTies js) := by unfold NoScoreTies; exact inferInstance
+/-- no two candidate pairs (uncertain, at or above the threshold) tie on score; ties among pairs
+    below the threshold — e.g. the many pairs scored 0 by the early exit — do not count -/
+def NoScoreTies (minW : Rat) (js : List Job) : Prop := ((js.filter (eligible minW)).map (·.score)).Nodup
+
+instance (minW : Rat) (js : List Job) : Decidable (NoScoreTies minW js) := by
+  unfold NoScoreTies; exact inferInstance
 
 /-- `Compare` under the sequential schedule -/
 def compare (L R : List Person) (scoreT scoreF : Nat → Nat → Rat) (prefer minW : Rat) : List Res :=
